@@ -39,6 +39,8 @@ func runC06(p *core.Prog, r *core.Report) {
 	// the collection that Close runs does not interleave with a push of the same client: the sweep holds the layout mutex (shared with C08.R2)
 	c08R2(p, r, "C06.R10")
 	c06R11(p, r, "C06.R11")
+	// head and get answer from the file as it is now (shared with C14.R9)
+	indexFreshRule(p, r, "C06.R12")
 }
 
 // c06R9: an entry without a name is not the entry of the empty tag. Where an entry's ref.name
